@@ -35,7 +35,7 @@ def run(ctx):
     ctx.rule = ("scenario = seeded (min,max threads, idle timeout, queue size, submitter count, submission pattern "
                 "{tight spin-barrier burst | streams | streams racing stop() | submissions around the idle-exit instant}, "
                 "task kinds {quick, sleep, throw, nested submit, latch}, API mix enqueue/tryEnqueue/enqueueWithResult, "
-                "shutdown kind {destructor | stop | drain+stop | stop racing submitters}); distinct = hash of those "
+                "shutdown kind {destructor | stop | drain+stop | stop racing submitters | shutdown() racing submitters}); distinct = hash of those "
                 "coordinates plus (refusal seen?, throwing task seen?, concurrency high-water mark)")
     ctx.assumptions = [
         "task bodies are bounded (latched tasks give up after 20 s); DETACHED shutdown mode is excluded (documented as leaking)",
@@ -43,6 +43,6 @@ def run(ctx):
         "'queue full' refusals are only judged in scenarios that never submit more tasks than the queue holds",
     ]
     ctx.require_obs("scenarios", "tasks_accepted", "tasks_refused", "tasks_throwing", "shutdown_kind_destructor",
-                    "shutdown_kind_stop", "shutdown_kind_drain_stop", "shutdown_kind_stop_racing_submitters",
+                    "shutdown_kind_stop", "shutdown_kind_drain_stop", "shutdown_kind_stop_racing_submitters", "shutdown_kind_shutdown_racing_submitters", "submitter_pre_lock_delays",
                     "pattern_tight_burst", "pattern_idle_exit_race", "scenarios_reaching_max_threads",
                     "late_submission_refused_cleanly", "condvar_prepark_delays", "thread_create_delays", "worker_post_unlock_delays")
